@@ -12,6 +12,8 @@ uint32_t yk_errno;
 int64_t yk_live;
 uint64_t yk_news, yk_deletes;
 uint64_t yk_clock_now;
+const void* yk_watch_ptr;
+uint32_t yk_watch_stores, yk_watch_loads;
 void* yk_thread_fn[4];
 uint32_t yk_threads_started;
 #ifndef YK_HAVE_SI_VTABLE
